@@ -146,37 +146,35 @@ Qed.
 
 (* ---------- preservation ---------- *)
 Ltac pc_only H Hp q :=
-  apply (inv_pc_only _ _ _ q H Hp); simpl; try reflexivity; try lia; auto;
-  rewrite ?map_app, ?xitems_app; simpl; rewrite ?app_nil_r; reflexivity.
+  apply (inv_pc_only _ _ _ q H Hp); simpl;
+  first [ reflexivity | lia | solve [intros; congruence] | solve [auto]
+        | (rewrite ?map_app, ?xitems_app; simpl; rewrite ?app_nil_r; reflexivity) ].
+
+Ltac put_tac H Hp Ecl :=
+  simpl; try reflexivity;
+  try solve [eapply fresh_data; eauto]; try solve [eapply fresh_end; eauto];
+  try lia; try congruence; try solve [split; eauto].
 
 Lemma mpstep_inv i st : MInv st -> MInv (mpstep i st).
 Proof.
   intros H. unfold mpstep. destruct (nth_error (mprods st) i) as [p|] eqn:Hp; auto.
   destruct (mpc_ p) eqn:Epc.
   - (* MIdle *)
-    destruct (mtodo p) as [|[shmok qfull|qfull] r] eqn:Et; auto.
+    destruct (mtodo p) as [|[shmok qfull|qfull] r]; auto.
     + destruct (closed p) eqn:Ecl; [pc_only H Hp (mfin p)|].
       destruct (infb p || negb shmok).
-      * eapply (inv_put st i p _ (i, DData (nxt p)) VS H Hp); simpl; try reflexivity; auto.
-        -- eapply fresh_data; eauto.
-        -- eapply fresh_end; eauto.
-        -- congruence.
-        -- split; eauto.
+      * apply (inv_put st i p (mloc MWait (OFlush shmok qfull :: r) (S (nxt p)) true false) (i, DData (nxt p)) VS H Hp);
+          put_tac H Hp Ecl.
       * destruct qfull.
-        -- pc_only H Hp (mloc MIdle (tl (mtodo p)) (S (nxt p)) false false).
-        -- eapply (inv_put st i p _ (i, DData (nxt p)) VQ H Hp); simpl; try reflexivity; auto.
-           ++ eapply fresh_data; eauto.
-           ++ eapply fresh_end; eauto.
-           ++ congruence.
+        -- pc_only H Hp (mloc MIdle (tl (OFlush shmok true :: r)) (S (nxt p)) false false).
+        -- apply (inv_put st i p (mloc MMark (OFlush shmok false :: r) (S (nxt p)) false false) (i, DData (nxt p)) VQ H Hp);
+             put_tac H Hp Ecl.
     + destruct (closed p) eqn:Ecl; [pc_only H Hp (mfin p)|].
       destruct qfull.
-      * eapply (inv_put st i p _ (i, DEnd) VS H Hp); simpl; try reflexivity; auto.
-        -- eapply fresh_end; eauto.
-        -- eapply fresh_end; eauto.
-        -- split; eauto.
-      * eapply (inv_put st i p _ (i, DEnd) VQ H Hp); simpl; try reflexivity; auto.
-        -- eapply fresh_end; eauto.
-        -- eapply fresh_end; eauto.
+      * apply (inv_put st i p (mloc MWait (OClose true :: r) (nxt p) (infb p) true) (i, DEnd) VS H Hp);
+          put_tac H Hp Ecl.
+      * apply (inv_put st i p (mloc MMark (OClose false :: r) (nxt p) (infb p) true) (i, DEnd) VQ H Hp);
+          put_tac H Hp Ecl.
   - destruct (mflag st); [pc_only H Hp (mfin p) | pc_only H Hp (mmkp MWr p)].
   - destruct (mwriting st); [pc_only H Hp (mmkp MSlow p) | pc_only H Hp (mmkp MEv p)].
   - pc_only H Hp (mfin p).
@@ -185,3 +183,237 @@ Proof.
   - pc_only H Hp (mfin p).
   - destruct (existsb (Nat.eqb i) (acks st)); [pc_only H Hp (mfin p) | exact H].
 Qed.
+
+Lemma inv_same st st' :
+  MInv st -> queue st' = queue st -> xitems (msock st') = xitems (msock st) ->
+  lhand (msl st') ++ xitems (map fst (msendch st')) = lhand (msl st) ++ xitems (map fst (msendch st)) ->
+  flog st' = flog st -> deliv st' = deliv st -> mprods st' = mprods st -> MInv st'.
+Proof.
+  intros [Hfq Hfs Hv Hnd He] Eq Es El Ef Ed Ep.
+  constructor; rewrite ?Eq, ?Es, ?El, ?Ef, ?Ed, ?Ep; auto.
+Qed.
+
+Ltac rw_eqs :=
+  repeat match goal with
+         | E : msock _ = _ |- _ => rewrite E
+         | E : queue _ = _ |- _ => rewrite E
+         | E : msendch _ = _ |- _ => rewrite E
+         | E : msl _ = _ |- _ => rewrite E
+         end.
+Ltac same H := apply (inv_same _ _ H); simpl; rw_eqs; rewrite ?xitems_app, ?app_nil_r; simpl; rewrite ?app_nil_r; reflexivity.
+
+Lemma mcstep_inv st : MInv st -> MInv (mcstep st).
+Proof.
+  intros H. unfold mcstep. destruct (mcons st) eqn:Ec.
+  - destruct (msock st) as [|[|x] r] eqn:Es; [exact H | same H |].
+    (* a fallback / stream-close event reaches its stream *)
+    destruct H as [Hfq Hfs Hv Hnd He]. constructor; simpl; auto.
+    + rewrite projV_app. unfold projV at 2; simpl. rewrite app_nil_r. exact Hfq.
+    + rewrite projV_app. unfold projV at 2; simpl. rewrite <- Hfs, Es. simpl. rewrite <- !app_assoc. reflexivity.
+  - same H.
+  - destruct (queue st); same H.
+  - destruct (queue st) as [|x q] eqn:Eq; [same H|].
+    destruct H as [Hfq Hfs Hv Hnd He]. constructor; simpl; auto.
+    + rewrite projV_app. unfold projV at 2; simpl. rewrite <- Hfq, Eq, <- !app_assoc. reflexivity.
+    + rewrite projV_app. unfold projV at 2; simpl. rewrite app_nil_r. exact Hfs.
+  - same H.
+  - same H.
+  - destruct empty; same H.
+  - same H.
+Qed.
+
+Lemma msstep_inv st : MInv st -> MInv (msstep st).
+Proof.
+  intros H. unfold msstep. destruct (msl st) as [|e|e|e|o] eqn:El.
+  - destruct (msendch st) as [|e r] eqn:Es; [exact H|].
+    apply (inv_same _ _ H); simpl; rewrite ?El, ?Es; simpl; rewrite ?app_nil_r; reflexivity.
+  - destruct (mwriting st); apply (inv_same _ _ H); simpl; rewrite ?El; reflexivity.
+  - destruct (mnotif st); [|exact H]. apply (inv_same _ _ H); simpl; rewrite ?El; reflexivity.
+  - destruct H as [Hfq Hfs Hv Hnd He]. constructor; simpl; auto.
+    rewrite <- Hfs, El, xitems_app. simpl. rewrite <- !app_assoc. reflexivity.
+  - apply (inv_same _ _ H); simpl; rewrite ?El; reflexivity.
+Qed.
+
+Lemma minit_inv progs : MInv (minit progs).
+Proof.
+  constructor; simpl; auto.
+  - intros x [].
+  - constructor.
+Qed.
+
+Lemma mstep_inv st w : MInv st -> MInv (mstep st w).
+Proof. destruct w; simpl; [apply mpstep_inv | apply mcstep_inv | apply msstep_inv]. Qed.
+
+Theorem mrun_inv progs sched : MInv (mrun sched (minit progs)).
+Proof.
+  unfold mrun. generalize (minit_inv progs). generalize (minit progs).
+  induction sched as [|w sched IH]; simpl; intros s H; auto. apply IH, mstep_inv, H.
+Qed.
+
+(* ---------- consequences ---------- *)
+
+(* every delivered entry was handed to that transport by a writer, is valid for the writer of the
+   stream it is delivered to, and no item is delivered twice — for all schedules and fault patterns *)
+Lemma deliv_in_flog st x v : MInv st -> In (x, v) (deliv st) -> In (x, v) (flog st).
+Proof.
+  intros H Hin. apply In_projV. apply (projV_In v) in Hin. destruct v.
+  - rewrite <- (m_fq st H). apply in_or_app. left; exact Hin.
+  - rewrite <- (m_fs st H). apply in_or_app. left; exact Hin.
+Qed.
+
+Lemma NoDup_app_l {A} (a b : list A) : NoDup (a ++ b) -> NoDup a.
+Proof.
+  induction a as [|x a IH]; simpl; intros H; [constructor|].
+  inversion H; subst. constructor; auto. intros Hin. apply H2. apply in_or_app. left; exact Hin.
+Qed.
+Lemma perm_4 {A} (a b c d : list A) : Permutation ((a ++ b) ++ (c ++ d)) ((a ++ c) ++ (b ++ d)).
+Proof.
+  rewrite <- !app_assoc. apply Permutation_app_head. rewrite !app_assoc.
+  apply Permutation_app_tail. apply Permutation_app_comm.
+Qed.
+
+Theorem isolation progs sched :
+  let st := mrun sched (minit progs) in
+  (forall x v, In (x, v) (deliv st) -> In (x, v) (flog st) /\ valid (mprods st) x) /\
+  NoDup (map fst (deliv st)).
+Proof.
+  intros st. pose proof (mrun_inv progs sched) as H. fold st in H. split.
+  - intros x v Hin. pose proof (deliv_in_flog st x v H Hin) as Hf. split; auto.
+    apply (m_valid st H). apply in_map_iff. exists (x, v). auto.
+  - eapply Permutation_NoDup; [apply Permutation_sym, perm_proj|].
+    pose proof (m_nodup st H) as Hnd.
+    eapply Permutation_NoDup in Hnd; [|apply perm_proj].
+    rewrite <- (m_fq st H), <- (m_fs st H) in Hnd.
+    eapply Permutation_NoDup in Hnd; [|apply perm_4].
+    apply NoDup_app_l in Hnd. exact Hnd.
+Qed.
+
+Theorem transport_fifo progs sched :
+  let st := mrun sched (minit progs) in
+  (exists rest, projV VQ (deliv st) ++ rest = projV VQ (flog st)) /\
+  (exists rest, projV VS (deliv st) ++ rest = projV VS (flog st)).
+Proof.
+  intros st. pose proof (mrun_inv progs sched) as H. fold st in H. split; eexists.
+  - apply (m_fq st H).
+  - apply (m_fs st H).
+Qed.
+
+Lemma filt_proj s v (l : list entry) :
+  (forall x w, In (x, w) l -> fst x = s -> w = v) ->
+  filter (of_stream s) (map fst l) = filter (of_stream s) (projV v l).
+Proof.
+  induction l as [|[x w] l IH]; simpl; intros Hl; auto.
+  unfold projV in *. simpl. destruct (of_stream s x) eqn:Eo.
+  - assert (w = v) by (apply (Hl x w); auto; unfold of_stream in Eo; apply Nat.eqb_eq in Eo; auto). subst w.
+    replace (via_eqb v v) with true by (destruct v; reflexivity). simpl. rewrite Eo. f_equal. apply IH.
+    intros y w' Hy. apply Hl. right; exact Hy.
+  - destruct (via_eqb w v); simpl; rewrite ?Eo; apply IH; intros y w' Hy; apply Hl; right; exact Hy.
+Qed.
+
+Lemma ditem_eqb_refl d : ditem_eqb d d = true.
+Proof. destruct d; simpl; auto. apply Nat.eqb_refl. Qed.
+Lemma is_prefix_app a b : is_prefix a (a ++ b) = true.
+Proof. induction a as [|x a IH]; simpl; auto. rewrite ditem_eqb_refl, IH. reflexivity. Qed.
+
+Lemma end_last_filter s L A B :
+  end_last s L -> filter (of_stream s) L = A ++ B -> In (s, DEnd) A -> B = [].
+Proof.
+  revert A B. induction L as [|x r IH]; simpl; intros A B He Hf Hin.
+  - destruct A; [destruct Hin | discriminate].
+  - destruct He as [Hx Hr]. destruct (of_stream s x) eqn:Eo.
+    + destruct A as [|a A']; [destruct Hin|]. simpl in Hf. inversion Hf; subst a.
+      destruct Hin as [Hin|Hin].
+      * assert (Hnone : filter (of_stream s) r = []).
+        { clear -Hx Hin. specialize (Hx Hin). induction r as [|y r IHr]; simpl; auto.
+          destruct (of_stream s y) eqn:Ey.
+          - exfalso. apply (Hx y); [left; auto|]. unfold of_stream in Ey. apply Nat.eqb_eq in Ey. auto.
+          - apply IHr. intros z Hz. apply Hx. right; auto. }
+        rewrite Hnone in H1. symmetry in H1. apply app_eq_nil in H1. tauto.
+      * eapply IH; eauto.
+    + eapply IH; eauto.
+Qed.
+
+Lemma filter_of_stream_fst s L x : In x (filter (of_stream s) L) -> fst x = s.
+Proof. intros H. apply filter_In in H. destruct H as [_ H]. unfold of_stream in H. apply Nat.eqb_eq in H. auto. Qed.
+
+Lemma existsb_end_in s (l : list item) :
+  (forall x, In x l -> fst x = s) -> existsb (ditem_eqb DEnd) (map snd l) = true -> In (s, DEnd) l.
+Proof.
+  intros Hs H. apply existsb_exists in H. destruct H as [d [Hd Hd2]].
+  destruct d; simpl in Hd2; try discriminate.
+  apply in_map_iff in Hd. destruct Hd as [[a b] [Hb Hin]]. simpl in Hb. subst b.
+  specialize (Hs _ Hin). simpl in Hs. subst a. exact Hin.
+Qed.
+
+(* a stream whose items all travelled through one transport is delivered in order, with the end
+   mark (if delivered) after everything its writer sent *)
+Theorem single_transport_ordered progs sched s v :
+  let st := mrun sched (minit progs) in
+  (forall x w, In (x, w) (flog st) -> fst x = s -> w = v) ->
+  ordered s st = true.
+Proof.
+  intros st Hone. pose proof (mrun_inv progs sched) as H. fold st in H.
+  assert (HoneD : forall x w, In (x, w) (deliv st) -> fst x = s -> w = v).
+  { intros x w Hin. apply Hone. apply deliv_in_flog; auto. }
+  assert (Hsplit : exists rest, filter (of_stream s) (map fst (deliv st)) ++ rest
+                                = filter (of_stream s) (map fst (flog st))).
+  { rewrite (filt_proj s v (deliv st) HoneD), (filt_proj s v (flog st) Hone).
+    destruct v.
+    - rewrite <- (m_fq st H), filter_app. eexists; reflexivity.
+    - rewrite <- (m_fs st H), filter_app. eexists; reflexivity. }
+  destruct Hsplit as [rest Hsplit].
+  unfold ordered, seen, sent. rewrite <- Hsplit, map_app, is_prefix_app. simpl.
+  unfold end_after_all, seen, sent. rewrite <- Hsplit.
+  destruct (existsb (ditem_eqb DEnd) (map snd (filter (of_stream s) (map fst (deliv st))))) eqn:Ee; auto.
+  apply (existsb_end_in s) in Ee; [|intros x Hx; eapply filter_of_stream_fst; eauto].
+  pose proof (m_end st H s) as Hel.
+  assert (Hrest : rest = []) by (eapply end_last_filter; [exact Hel | symmetry; exact Hsplit | exact Ee]).
+  subst rest. rewrite app_nil_r in *.
+  apply in_split in Ee. destruct Ee as [l1 [l2 El]].
+  assert (Hl2 : l2 = []).
+  { eapply (end_last_filter s _ (l1 ++ [(s, DEnd)]) l2 Hel).
+    - rewrite <- Hsplit, El, <- app_assoc. reflexivity.
+    - apply in_or_app. right; left; reflexivity. }
+  subst l2. rewrite El, map_app, rev_app_distr. simpl. apply Nat.eqb_refl.
+Qed.
+
+(* ---------- the full order statement is false of the model: two witnesses ---------- *)
+Definition order_full : Prop :=
+  forall progs sched s, ordered s (mrun sched (minit progs)) = true.
+
+Definition rP i n := repeat (WProd i) n.
+Definition rC n := repeat WCons n.
+Definition rS n := repeat WSend n.
+
+(* (a) close overtakes fallback data: one stream; m0 through the queue (polling event written, not yet
+   handled), shared memory exhausted: m1 through the socket (send loop), close: the close element goes
+   through the queue (markWorking fails, the flag is still up).  The consumer handles the polling event
+   first: m0, END — and only then the fallback event: m1. *)
+Definition wit_a_progs := [[OFlush true false; OFlush false false; OClose false]].
+Definition wit_a_sched := rP 0 6 ++ rP 0 1 ++ rS 4 ++ rP 0 1 ++ rP 0 2 ++ rC 30.
+Lemma wit_a :
+  let st := mrun wit_a_sched (minit wit_a_progs) in
+  seen 0 st = [DData 0; DEnd; DData 1] /\ sent 0 st = [DData 0; DData 1; DEnd] /\ ordered 0 st = false.
+Proof. vm_compute. repeat split. Qed.
+
+(* (b) a fallback event overtakes an unpublished wake-up: writer 0 wins markWorking and is pre-empted
+   before it writes the polling event; writer 1 puts b0 (markWorking fails: no event), then flushes b1
+   through the socket; the fallback event precedes writer 0's polling event: b1 is delivered before b0. *)
+Definition wit_b_progs := [[OFlush true false]; [OFlush true false; OFlush false false]].
+Definition wit_b_sched := rP 0 2 ++ rP 1 2 ++ rP 1 1 ++ rS 4 ++ rP 1 1 ++ rP 0 4 ++ rC 30.
+Lemma wit_b :
+  let st := mrun wit_b_sched (minit wit_b_progs) in
+  seen 1 st = [DData 1; DData 0] /\ sent 1 st = [DData 0; DData 1] /\ ordered 1 st = false.
+Proof. vm_compute. repeat split. Qed.
+
+Theorem order_refuted : ~ order_full.
+Proof.
+  intros Hf.
+  assert (E : ordered 0 (mrun wit_a_sched (minit wit_a_progs)) = false) by (vm_compute; reflexivity).
+  rewrite (Hf wit_a_progs wit_a_sched 0) in E. discriminate E.
+Qed.
+
+(* non-vacuity of the partial theorem: stream 0 uses only the queue, stream 1 only the socket (falls
+   back from its first message, closed through the socket because the queue is full) *)
+Definition ex_progs := [[OFlush true false; OFlush true false; OClose false]; [OFlush false false; OFlush true false; OClose true]].
+Definition ex_sched := rP 0 6 ++ rP 1 1 ++ rS 5 ++ rP 1 2 ++ rP 0 2 ++ rS 5 ++ rP 1 2 ++ rC 12 ++ rS 5 ++ rP 1 1 ++ rP 0 6 ++ rC 40.
